@@ -280,6 +280,20 @@ func checkC02(p *Program, r *Report) {
 	})
 	r.Floor("C02.member", 4)
 	r.Floor("C02.hexarm", 1)
+	// round 6 (C02-agent6-m1/m2): "nothing with an unknown type/size version byte [or] wrong payload length … is
+	// accepted" is the agreement of classifier, packer and decode arms that C01.kinds decides (K1's entries stay C01's)
+	r.Borrow("C01", func(o *Ob) (string, bool) {
+		if o.Rule == "C01.kinds" && !strings.Contains(o.Construct, "hex arm") {
+			return "C02.kinds", true
+		}
+		if o.Rule == "C01.pure" {
+			// C02-agent6-m3: a decoded address that a later conversion re-labels no longer re-encodes to its string
+			return "C02.pure", true
+		}
+		return "", false
+	})
+	r.Floor("C02.kinds", 10)
+	r.Floor("C02.pure", 10)
 }
 
 // regroupRoles recognises the bit-regrouping function: an outer loop with a
